@@ -41,6 +41,38 @@ fn last_loc() -> String {
     LAST_LOC.with(|c| c.borrow().clone())
 }
 
+
+// ------------------------------------------------------------------------------------------------
+// coverage counters: which generated table types the traversal visited and which hand-written helper
+// functions were called (calls / calls that returned a value rather than None/Err)
+// ------------------------------------------------------------------------------------------------
+thread_local! {
+    static COV_TABLE: RefCell<std::collections::HashMap<String, u64>> = RefCell::new(Default::default());
+    static COV_HELPER: RefCell<std::collections::HashMap<&'static str, [u64; 2]>> = RefCell::new(Default::default());
+}
+fn cov_table(name: &str) {
+    COV_TABLE.with(|m| {
+        let mut m = m.borrow_mut();
+        if let Some(v) = m.get_mut(name) {
+            *v += 1;
+        } else {
+            m.insert(name.to_string(), 1);
+        }
+    });
+}
+fn cov_helper(name: &'static str, calls: u64, hits: u64) {
+    COV_HELPER.with(|m| {
+        let mut m = m.borrow_mut();
+        let e = m.entry(name).or_insert([0, 0]);
+        e[0] += calls;
+        e[1] += hits;
+    });
+}
+type CovDump = (Vec<(String, u64)>, Vec<(&'static str, [u64; 2])>);
+fn cov_take() -> CovDump {
+    (COV_TABLE.with(|m| m.borrow_mut().drain().collect()), COV_HELPER.with(|m| m.borrow_mut().drain().collect()))
+}
+
 // ------------------------------------------------------------------------------------------------
 // (a) correspondence
 // ------------------------------------------------------------------------------------------------
@@ -1033,6 +1065,12 @@ impl Trav {
     fn err(&mut self, e: &ReadError) {
         self.dbg(e);
     }
+    /// observe the result of a hand-written helper call and count it (hit = not None / Err)
+    fn dbgc<T: std::fmt::Debug>(&mut self, name: &'static str, v: &T) {
+        let s = format!("{:?}", v);
+        cov_helper(name, 1, !(s.starts_with("None") || s.starts_with("Err")) as u64);
+        self.s(&s);
+    }
     fn tick(&mut self) -> bool {
         self.nodes += 1;
         if self.nodes > self.budget || (self.nodes % 1024 == 0 && Instant::now() > self.deadline) {
@@ -1042,6 +1080,7 @@ impl Trav {
     }
     fn table<'a>(&mut self, t: &(dyn SomeTable<'a> + 'a), depth: u32) {
         self.s(t.type_name());
+        cov_table(t.type_name());
         if depth > 40 {
             self.truncated = true;
             return;
@@ -1176,10 +1215,12 @@ fn content_len(c: &read_fonts::tables::bitmap::BitmapContent) -> usize {
 fn drive_index1(t: &mut Trav, x: &Index1) {
     let n = x.count() as usize;
     t.num(n as i128);
-    t.dbg(&x.size_in_bytes());
+    t.dbgc("postscript/index.rs Index::size_in_bytes", &x.size_in_bytes());
     for i in (0..n.min(700)).chain([n, n + 1, usize::MAX]) {
-        t.dbg(&x.get_offset(i).map_err(|e| e.to_string()));
-        match x.get(i) {
+        t.dbgc("postscript/index.rs Index::get_offset", &x.get_offset(i).map_err(|e| e.to_string()));
+        let xg = x.get(i);
+        cov_helper("postscript/index.rs Index::get", 1, xg.is_ok() as u64);
+        match xg {
             Ok(s) => t.num(s.len() as i128),
             Err(e) => t.s(&e.to_string()),
         }
@@ -1188,10 +1229,12 @@ fn drive_index1(t: &mut Trav, x: &Index1) {
 fn drive_index2(t: &mut Trav, x: &Index2) {
     let n = x.count() as usize;
     t.num(n as i128);
-    t.dbg(&x.size_in_bytes());
+    t.dbgc("postscript/index.rs Index::size_in_bytes", &x.size_in_bytes());
     for i in (0..n.min(700)).chain([n, n.wrapping_add(1), usize::MAX]) {
-        t.dbg(&x.get_offset(i).map_err(|e| e.to_string()));
-        match x.get(i) {
+        t.dbgc("postscript/index.rs Index::get_offset", &x.get_offset(i).map_err(|e| e.to_string()));
+        let xg = x.get(i);
+        cov_helper("postscript/index.rs Index::get", 1, xg.is_ok() as u64);
+        match xg {
             Ok(s) => t.num(s.len() as i128),
             Err(e) => t.s(&e.to_string()),
         }
@@ -1206,7 +1249,7 @@ fn drive_handwritten(t: &mut Trav, font: &FontRef) {
     if let Ok(cmap) = font.cmap() {
         use read_fonts::tables::cmap::{Cmap12IterLimits, CmapSubtable};
         for cp in [0u32, 0x20, 0x41, 0xFFFF, 0x10000, 0x10FFFF, u32::MAX] {
-            t.dbg(&cmap.map_codepoint(cp));
+            t.dbgc("cmap.rs Cmap::map_codepoint", &cmap.map_codepoint(cp));
         }
         for rec in cmap.encoding_records().iter().take(64) {
             if !t.tick() {
@@ -1214,18 +1257,21 @@ fn drive_handwritten(t: &mut Trav, font: &FontRef) {
             }
             match rec.subtable(cmap.offset_data()) {
                 Ok(CmapSubtable::Format4(s)) => {
+                    cov_helper("cmap.rs Cmap4::iter", 1, s.iter().take(70000).count() as u64);
                     for (c, g) in s.iter().take(70000) {
                         t.num(c as i128);
                         t.num(g.to_u32() as i128);
                     }
                     for cp in [0u32, 1, 0x20, 0x7F, 0xFFFE, 0xFFFF, 0x10000] {
-                        t.dbg(&s.map_codepoint(cp));
+                        t.dbgc("cmap.rs Cmap4::map_codepoint", &s.map_codepoint(cp));
                     }
                     for sc in s.start_code().iter().take(50).chain(s.end_code().iter().take(50)) {
-                        t.dbg(&s.map_codepoint(sc.get()));
+                        t.dbgc("cmap.rs Cmap4::map_codepoint", &s.map_codepoint(sc.get()));
                     }
                 }
                 Ok(CmapSubtable::Format12(s)) => {
+                    cov_helper("cmap.rs Cmap12::iter", 1, s.iter().take(30000).count() as u64);
+                    cov_helper("cmap.rs Cmap12::iter_with_limits", 1, s.iter_with_limits(Cmap12IterLimits::default_for_font(font)).take(30000).count() as u64);
                     for (c, g) in s.iter().take(30000) {
                         t.num(c as i128);
                         t.num(g.to_u32() as i128);
@@ -1235,21 +1281,22 @@ fn drive_handwritten(t: &mut Trav, font: &FontRef) {
                         t.num(g.to_u32() as i128);
                     }
                     for g in s.groups().iter().take(50) {
-                        t.dbg(&s.map_codepoint(g.start_char_code()));
-                        t.dbg(&s.map_codepoint(g.end_char_code()));
-                        t.dbg(&s.map_codepoint(g.end_char_code().wrapping_add(1)));
+                        t.dbgc("cmap.rs Cmap12::map_codepoint", &s.map_codepoint(g.start_char_code()));
+                        t.dbgc("cmap.rs Cmap12::map_codepoint", &s.map_codepoint(g.end_char_code()));
+                        t.dbgc("cmap.rs Cmap12::map_codepoint", &s.map_codepoint(g.end_char_code().wrapping_add(1)));
                     }
                 }
                 Ok(CmapSubtable::Format14(s)) => {
+                    cov_helper("cmap.rs Cmap14::iter", 1, s.iter().take(30000).count() as u64);
                     for (c, sel, m) in s.iter().take(30000) {
                         t.num(c as i128);
                         t.num(sel as i128);
-                        t.dbg(&m);
+                        t.dbgc("cmap.rs Cmap14Iter::next", &m);
                     }
                     for vs in s.var_selector().iter().take(20) {
                         let sel: u32 = vs.var_selector().into();
                         for cp in [0u32, 0x41, 0x4E00, 0x10FFFF, u32::MAX] {
-                            t.dbg(&s.map_variant(cp, sel));
+                            t.dbgc("cmap.rs Cmap14::map_variant", &s.map_variant(cp, sel));
                         }
                     }
                 }
@@ -1269,10 +1316,13 @@ fn drive_handwritten(t: &mut Trav, font: &FontRef) {
             if !t.tick() {
                 return;
             }
-            t.dbg(&loca.get_raw(g as usize));
-            match loca.get_glyf(GlyphId::new(g), &glyf) {
+            t.dbgc("loca.rs Loca::get_raw", &loca.get_raw(g as usize));
+            let gl = loca.get_glyf(GlyphId::new(g), &glyf);
+            cov_helper("loca.rs Loca::get_glyf", 1, matches!(gl, Ok(Some(_))) as u64);
+            match gl {
                 Ok(Some(Glyph::Simple(s))) => {
                     let np = s.num_points();
+                    cov_helper("glyf.rs SimpleGlyph::points", 1, s.points().take(70000).count() as u64);
                     t.num(np as i128);
                     t.num(s.has_overlapping_contours() as i128);
                     for p in s.points().take(70000) {
@@ -1282,7 +1332,9 @@ fn drive_handwritten(t: &mut Trav, font: &FontRef) {
                     }
                     let mut pts = vec![Point::<i32>::default(); np];
                     let mut fl = vec![PointFlags::default(); np];
-                    match s.read_points_fast(&mut pts, &mut fl) {
+                    let rp = s.read_points_fast(&mut pts, &mut fl);
+                    cov_helper("glyf.rs SimpleGlyph::read_points_fast", 1, rp.is_ok() as u64);
+                    match rp {
                         Ok(()) => {
                             for p in &pts {
                                 t.num(p.x as i128);
@@ -1293,10 +1345,12 @@ fn drive_handwritten(t: &mut Trav, font: &FontRef) {
                     }
                 }
                 Ok(Some(Glyph::Composite(c))) => {
+                    cov_helper("glyf.rs CompositeGlyph::components", 1, c.components().take(5000).count() as u64);
+                    cov_helper("glyf.rs CompositeGlyph::count_and_instructions", 1, c.count_and_instructions().1.is_some() as u64);
                     for comp in c.components().take(5000) {
                         t.num(comp.glyph.to_u16() as i128);
-                        t.dbg(&comp.anchor);
-                        t.dbg(&comp.transform);
+                        t.dbgc("glyf.rs ComponentIter::next(anchor)", &comp.anchor);
+                        t.dbgc("glyf.rs ComponentIter::next(transform)", &comp.transform);
                     }
                     for (g, f) in c.component_glyphs_and_flags().take(5000) {
                         t.num(g.to_u16() as i128);
@@ -1314,14 +1368,14 @@ fn drive_handwritten(t: &mut Trav, font: &FontRef) {
     // metrics
     if let Ok(hmtx) = font.hmtx() {
         for g in gids(num_glyphs) {
-            t.dbg(&hmtx.advance(GlyphId::new(g)));
-            t.dbg(&hmtx.side_bearing(GlyphId::new(g)));
+            t.dbgc("hmtx.rs Hmtx::advance", &hmtx.advance(GlyphId::new(g)));
+            t.dbgc("hmtx.rs Hmtx::side_bearing", &hmtx.side_bearing(GlyphId::new(g)));
         }
     }
     if let Ok(vmtx) = font.vmtx() {
         for g in gids(num_glyphs) {
-            t.dbg(&vmtx.advance(GlyphId::new(g)));
-            t.dbg(&vmtx.side_bearing(GlyphId::new(g)));
+            t.dbgc("hmtx.rs Vmtx::advance", &vmtx.advance(GlyphId::new(g)));
+            t.dbgc("hmtx.rs Vmtx::side_bearing", &vmtx.side_bearing(GlyphId::new(g)));
         }
     }
     if let Ok(vorg) = font.vorg() {
@@ -1340,7 +1394,7 @@ fn drive_handwritten(t: &mut Trav, font: &FontRef) {
         let n = post.num_names() as u32;
         for g in gids(n.min(0xFFFF)) {
             if g <= 0xFFFF {
-                t.dbg(&post.glyph_name(GlyphId16::new(g as u16)));
+                t.dbgc("post.rs Post::glyph_name", &post.glyph_name(GlyphId16::new(g as u16)));
             }
         }
     }
@@ -1363,7 +1417,7 @@ fn drive_handwritten(t: &mut Trav, font: &FontRef) {
         drive_index1(t, &cff.strings());
         drive_index1(t, &cff.global_subrs());
         for i in [0usize, 1, 2, usize::MAX] {
-            t.dbg(&cff.name(i).map(|s| s.bytes().len()));
+            t.dbgc("cff.rs Cff::name", &cff.name(i).map(|s| s.bytes().len()));
         }
         match cff.charset(0) {
             Ok(Some(cs)) => {
@@ -1373,7 +1427,7 @@ fn drive_handwritten(t: &mut Trav, font: &FontRef) {
                     t.num(sid.to_u16() as i128);
                 }
                 for g in gids(cs.num_glyphs()) {
-                    t.dbg(&cs.string_id(GlyphId::new(g)).map(|s| s.to_u16()).map_err(|e| e.to_string()));
+                    t.dbgc("postscript/charset.rs Charset::string_id", &cs.string_id(GlyphId::new(g)).map(|s| s.to_u16()).map_err(|e| e.to_string()));
                 }
             }
             Ok(None) => t.num(-1),
@@ -1381,20 +1435,20 @@ fn drive_handwritten(t: &mut Trav, font: &FontRef) {
         }
         if let Ok(td) = cff.top_dicts().get(0) {
             for e in read_fonts::tables::postscript::dict::entries(td, None).take(3000) {
-                t.dbg(&e.map_err(|e| e.to_string()));
+                t.dbgc("postscript/dict.rs entries", &e.map_err(|e| e.to_string()));
             }
         }
     }
     if let Ok(cff2) = font.cff2() {
         drive_index2(t, &cff2.global_subrs());
         for e in read_fonts::tables::postscript::dict::entries(cff2.top_dict_data(), None).take(3000) {
-            t.dbg(&e.map_err(|e| e.to_string()));
+            t.dbgc("postscript/dict.rs entries", &e.map_err(|e| e.to_string()));
         }
     }
     // variations
     let axis_count = font.fvar().map(|f| f.axis_count()).unwrap_or(2);
     if let Ok(fvar) = font.fvar() {
-        t.dbg(&fvar.axes().map(|a| a.len()));
+        t.dbgc("fvar.rs Fvar::axes", &fvar.axes().map(|a| a.len()));
         if let Ok(inst) = fvar.instances() {
             for i in inst.iter().take(300) {
                 match i {
@@ -1402,12 +1456,12 @@ fn drive_handwritten(t: &mut Trav, font: &FontRef) {
                     Err(e) => t.err(&e),
                 }
             }
-            t.dbg(&inst.get(usize::MAX).is_ok());
+            t.dbgc("array.rs ComputedArray::get(InstanceRecord)", &inst.get(usize::MAX).is_ok());
         }
         let avar = font.avar().ok();
         let mut nc = vec![F2Dot14::default(); 6];
         fvar.user_to_normalized(avar.as_ref(), [(Tag::new(b"wght"), Fixed::from_f64(650.0)), (Tag::new(b"wdth"), Fixed::from_f64(-5.0))], &mut nc);
-        t.dbg(&nc);
+        t.dbgc("fvar.rs Fvar::user_to_normalized", &nc);
     }
     if let Ok(avar) = font.avar() {
         for m in avar.axis_segment_maps().iter().take(64) {
@@ -1427,12 +1481,17 @@ fn drive_handwritten(t: &mut Trav, font: &FontRef) {
             if !t.tick() {
                 return;
             }
-            match gvar.glyph_variation_data(GlyphId::new(g)) {
+            let gv = gvar.glyph_variation_data(GlyphId::new(g));
+            cov_helper("gvar.rs Gvar::glyph_variation_data", 1, matches!(gv, Ok(Some(_))) as u64);
+            match gv {
                 Ok(Some(d)) => {
+                    cov_helper("variations.rs TupleVariationData::tuples", 1, d.tuples().take(300).count() as u64);
                     for tup in d.tuples().take(300) {
+                        cov_helper("variations.rs PackedPointNumbersIter::next", 1, tup.point_numbers().take(70000).count() as u64);
+                        cov_helper("variations.rs TupleDeltaIter::next", 1, tup.deltas().take(70000).count() as u64);
                         t.num(tup.peak().len() as i128);
                         t.num(tup.has_deltas_for_all_points() as i128);
-                        for p in tup.point_numbers().take(70000) {
+                        for p in tup.point_numbers().take(400) {
                             t.num(p as i128);
                         }
                         for dl in tup.deltas().take(70000) {
@@ -1441,7 +1500,7 @@ fn drive_handwritten(t: &mut Trav, font: &FontRef) {
                             t.num(dl.y_delta as i128);
                         }
                         for c in coords_sets {
-                            t.dbg(&tup.compute_scalar(c).map(|f| f.to_bits()));
+                            t.dbgc("variations.rs TupleVariation::compute_scalar", &tup.compute_scalar(c).map(|f| f.to_bits()));
                         }
                     }
                 }
@@ -1451,13 +1510,15 @@ fn drive_handwritten(t: &mut Trav, font: &FontRef) {
         }
         if let (Ok(loca), Ok(glyf)) = (font.loca(None), font.glyf()) {
             for g in [0u32, 1, 2, n.wrapping_sub(1), n] {
-                t.dbg(&gvar.phantom_point_deltas(&glyf, &loca, coords_sets[1], GlyphId::new(g)).map(|o| o.map(|p| p.map(|q| (q.x.to_bits(), q.y.to_bits())))));
+                t.dbgc("gvar.rs Gvar::phantom_point_deltas", &gvar.phantom_point_deltas(&glyf, &loca, coords_sets[1], GlyphId::new(g)).map(|o| o.map(|p| p.map(|q| (q.x.to_bits(), q.y.to_bits())))));
             }
         }
     }
     if let Ok(cvar) = font.cvar() {
         for ac in [axis_count, 0, 1, 0xFFFF] {
-            match cvar.variation_data(ac) {
+            let cv = cvar.variation_data(ac);
+            cov_helper("cvar.rs Cvar::variation_data", 1, cv.is_ok() as u64);
+            match cv {
                 Ok(d) => {
                     for tup in d.tuples().take(300) {
                         for dl in tup.deltas().take(70000) {
@@ -1471,40 +1532,61 @@ fn drive_handwritten(t: &mut Trav, font: &FontRef) {
         }
     }
     if let Ok(hvar) = font.hvar() {
+        use read_fonts::tables::variations::DeltaSetIndex;
+        if let Ok(store) = hvar.item_variation_store() {
+            let n = store.item_variation_data_count();
+            for outer in [0u16, 1, n.wrapping_sub(1), n, n.wrapping_add(1), 0xFFFF] {
+                for inner in [0u16, 1, 2, 0x7FFF, 0xFFFE, 0xFFFF] {
+                    for c in coords_sets {
+                        t.dbgc("variations.rs ItemVariationStore::compute_delta", &store.compute_delta(DeltaSetIndex { outer, inner }, c));
+                        t.dbgc("variations.rs ItemVariationStore::compute_float_delta", &store.compute_float_delta(DeltaSetIndex { outer, inner }, c).map(|f| format!("{:?}", f)));
+                    }
+                }
+            }
+        }
+        for map in [hvar.advance_width_mapping(), hvar.lsb_mapping(), hvar.rsb_mapping()].into_iter().flatten().flatten() {
+            let n = match &map {
+                read_fonts::tables::variations::DeltaSetIndexMap::Format0(m) => m.map_count() as u32,
+                read_fonts::tables::variations::DeltaSetIndexMap::Format1(m) => m.map_count(),
+            };
+            for i in [0u32, 1, n.wrapping_sub(1), n, n.wrapping_add(1), 0xFFFF, 0x10000, u32::MAX] {
+                t.dbgc("variations.rs DeltaSetIndexMap::get", &map.get(i).map(|d| (d.outer, d.inner)));
+            }
+        }
         for g in gids(num_glyphs).into_iter().take(40).chain([u32::MAX]) {
             for c in coords_sets {
-                t.dbg(&hvar.advance_width_delta(GlyphId::new(g), c).map(|f| f.to_bits()));
-                t.dbg(&hvar.lsb_delta(GlyphId::new(g), c).map(|f| f.to_bits()));
-                t.dbg(&hvar.rsb_delta(GlyphId::new(g), c).map(|f| f.to_bits()));
+                t.dbgc("hvar.rs Hvar::advance_width_delta", &hvar.advance_width_delta(GlyphId::new(g), c).map(|f| f.to_bits()));
+                t.dbgc("hvar.rs Hvar::lsb_delta", &hvar.lsb_delta(GlyphId::new(g), c).map(|f| f.to_bits()));
+                t.dbgc("hvar.rs Hvar::rsb_delta", &hvar.rsb_delta(GlyphId::new(g), c).map(|f| f.to_bits()));
             }
         }
     }
     if let Ok(vvar) = font.vvar() {
         for g in gids(num_glyphs).into_iter().take(40).chain([u32::MAX]) {
             for c in coords_sets {
-                t.dbg(&vvar.advance_height_delta(GlyphId::new(g), c).map(|f| f.to_bits()));
-                t.dbg(&vvar.v_org_delta(GlyphId::new(g), c).map(|f| f.to_bits()));
+                t.dbgc("vvar.rs Vvar::advance_height_delta", &vvar.advance_height_delta(GlyphId::new(g), c).map(|f| f.to_bits()));
+                t.dbgc("vvar.rs Vvar::v_org_delta", &vvar.v_org_delta(GlyphId::new(g), c).map(|f| f.to_bits()));
             }
         }
     }
     if let Ok(mvar) = font.mvar() {
         for tag in [b"xhgt", b"hasc", b"undo", b"zzzz"] {
             for c in coords_sets {
-                t.dbg(&mvar.metric_delta(Tag::new(tag), c).map(|f| f.to_bits()));
+                t.dbgc("mvar.rs Mvar::metric_delta", &mvar.metric_delta(Tag::new(tag), c).map(|f| f.to_bits()));
             }
         }
     }
     // colour / bitmaps
     if let Ok(colr) = font.colr() {
         for g in gids(num_glyphs).into_iter().take(120).chain([u32::MAX]) {
-            t.dbg(&colr.v0_base_glyph(GlyphId::new(g)));
+            t.dbgc("colr.rs Colr::v0_base_glyph", &colr.v0_base_glyph(GlyphId::new(g)));
             // the PaintId (second component) is checked separately by `paint_id_purity`
-            t.dbg(&colr.v1_base_glyph(GlyphId::new(g)).map(|o| o.is_some()));
-            t.dbg(&colr.v1_clip_box(GlyphId::new(g)).map(|o| o.is_some()));
+            t.dbgc("colr.rs Colr::v1_base_glyph", &colr.v1_base_glyph(GlyphId::new(g)).map(|o| o.is_some()));
+            t.dbgc("colr.rs Colr::v1_clip_box", &colr.v1_clip_box(GlyphId::new(g)).map(|o| o.is_some()));
         }
         for i in (0..40usize).chain([usize::MAX]) {
-            t.dbg(&colr.v0_layer(i));
-            t.dbg(&colr.v1_layer(i).is_ok());
+            t.dbgc("colr.rs Colr::v0_layer", &colr.v0_layer(i));
+            t.dbgc("colr.rs Colr::v1_layer", &colr.v1_layer(i).is_ok());
         }
     }
     if let (Ok(cblc), Ok(cbdt)) = (font.cblc(), font.cbdt()) {
@@ -1532,7 +1614,7 @@ fn drive_handwritten(t: &mut Trav, font: &FontRef) {
             match s {
                 Ok(s) => {
                     for g in gids(num_glyphs).into_iter().take(60).chain([u32::MAX]) {
-                        t.dbg(&s.glyph_data(GlyphId::new(g)).map(|o| o.map(|d| d.data().len())));
+                        t.dbgc("sbix.rs Strike::glyph_data", &s.glyph_data(GlyphId::new(g)).map(|o| o.map(|d| d.data().len())));
                     }
                 }
                 Err(e) => t.err(&e),
@@ -1541,7 +1623,7 @@ fn drive_handwritten(t: &mut Trav, font: &FontRef) {
     }
     if let Ok(svg) = font.svg() {
         for g in gids(num_glyphs).into_iter().take(60).chain([u32::MAX]) {
-            t.dbg(&svg.glyph_data(GlyphId::new(g)).map(|o| o.map(|d| d.len())));
+            t.dbgc("svg.rs Svg::glyph_data", &svg.glyph_data(GlyphId::new(g)).map(|o| o.map(|d| d.len())));
         }
     }
     // layout class definitions / coverage reachable from GDEF
@@ -1567,7 +1649,7 @@ fn drive_handwritten(t: &mut Trav, font: &FontRef) {
                     t.num(g.to_u16() as i128);
                 }
                 for g in [0u16, 1, 100, 0xFFFF] {
-                    t.dbg(&cov.get(GlyphId16::new(g)));
+                    t.dbgc("layout.rs CoverageTable::get", &cov.get(GlyphId16::new(g)));
                 }
             }
         }
@@ -2033,7 +2115,7 @@ fn fuzz(seed: u64, thorough: bool, st: &mut Stats, dir: &std::path::Path) {
     st.v.insert("fonts".into(), fonts.len().into());
     paint_id_purity(&fonts, st);
     // deterministic case list: (font index, mutation id); per-font case count grows slowly with size
-    let scale: f64 = std::env::var("C01_SCALE").ok().and_then(|s| s.parse().ok()).unwrap_or(if thorough { 60.0 } else { 7.0 });
+    let scale: f64 = std::env::var("C01_SCALE").ok().and_then(|s| s.parse().ok()).unwrap_or(if thorough { 40.0 } else { 4.0 });
     let mut cases: Vec<(usize, u64)> = vec![];
     for (fi, f) in fonts.iter().enumerate() {
         let per = ((3.0e6 / (f.bytes.len() as f64 + 1500.0)).clamp(40.0, 1400.0) * scale) as u64;
@@ -2049,10 +2131,11 @@ fn fuzz(seed: u64, thorough: bool, st: &mut Stats, dir: &std::path::Path) {
     let started: Arc<Vec<AtomicU64>> = Arc::new((0..nthreads).map(|_| AtomicU64::new(0)).collect());
     let results: Arc<Mutex<Vec<CaseResult>>> = Arc::new(Mutex::new(Vec::with_capacity(ncases)));
     let done = Arc::new(AtomicUsize::new(0));
+    let covs: Arc<Mutex<Vec<CovDump>>> = Arc::new(Mutex::new(vec![]));
     let t0 = Instant::now();
     let mut handles = vec![];
     for th in 0..nthreads {
-        let (fonts, cases, progress, started, results, done) = (fonts.clone(), cases.clone(), progress.clone(), started.clone(), results.clone(), done.clone());
+        let (fonts, cases, progress, started, results, done, covs) = (fonts.clone(), cases.clone(), progress.clone(), started.clone(), results.clone(), done.clone(), covs.clone());
         handles.push(
             std::thread::Builder::new()
                 .stack_size(64 << 20)
@@ -2075,6 +2158,7 @@ fn fuzz(seed: u64, thorough: bool, st: &mut Stats, dir: &std::path::Path) {
                         i += 16;
                     }
                     progress[th].store(usize::MAX, Ordering::SeqCst);
+                    covs.lock().unwrap().push(cov_take());
                     results.lock().unwrap().extend(local);
                     done.fetch_add(1, Ordering::SeqCst);
                 })
@@ -2148,6 +2232,28 @@ fn fuzz(seed: u64, thorough: bool, st: &mut Stats, dir: &std::path::Path) {
             st.oracle_failure(json!({"key": format!("{}:{}:impure", r.font, r.mid), "font": r.font, "mutation_id": r.mid, "mutation": r.desc, "what": why}));
         }
     }
+    // coverage: generated table types visited by the traversal, hand-written helpers called (calls, value-returning calls / items)
+    let mut tcov: std::collections::BTreeMap<String, u64> = Default::default();
+    let mut hcov: std::collections::BTreeMap<&'static str, [u64; 2]> = Default::default();
+    for (tv, hv) in covs.lock().unwrap().drain(..) {
+        for (k, v) in tv {
+            *tcov.entry(k).or_insert(0) += v;
+        }
+        for (k, v) in hv {
+            let e = hcov.entry(k).or_insert([0, 0]);
+            e[0] += v[0];
+            e[1] += v[1];
+        }
+    }
+    // (purity re-runs on spawned threads are not included: their thread-local counters die with the thread)
+    st.v.insert("coverage_table_types_visited".into(), tcov.len().into());
+    st.v.insert("coverage_tables".into(), serde_json::Value::Object(tcov.iter().map(|(k, v)| (k.clone(), (*v).into())).collect()));
+    st.v.insert("coverage_helpers".into(), serde_json::Value::Object(hcov.iter().map(|(k, v)| (k.to_string(), json!({"calls": v[0], "hits_or_items": v[1]}))).collect()));
+    let mut per_module: std::collections::BTreeMap<String, u64> = Default::default();
+    for (k, v) in &hcov {
+        *per_module.entry(k.split(' ').next().unwrap_or("").to_string()).or_insert(0) += v[0];
+    }
+    st.v.insert("coverage_helper_calls_per_module".into(), serde_json::Value::Object(per_module.iter().map(|(k, v)| (k.clone(), (*v).into())).collect()));
     st.v.insert("fuzz_wall_s".into(), (t0.elapsed().as_secs_f64()).into());
     st.v.insert("fuzz_slowest_case".into(), json!({"ms": slowest.0, "case": slowest.1}));
     st.v.insert("fuzz_cases".into(), ncases.into());
